@@ -45,7 +45,7 @@ META = {
                     "interpreter logs are compared only for programs whose first steps are well defined"],
     "probes": ["hashseed_differs", "order_differs", "history_nonempty", "history_raises", "fortran_compared",
                "interp_compared", "same_description_objects_used_before",
-               "user_types_name_their_own_index_variables"],
+               "user_types_name_their_own_index_variables", "instrumented_module_text", "state_update_hooks"],
  },
  "C14": {
     "level": "exploration",
@@ -73,7 +73,7 @@ META = {
     "probes": ["pair_defined_both", "pair_undefined_both", "triple_checked", "delivery_conflict_free",
                "delivery_conflicting", "program_level", "inference_failed_consistently",
                "statement_ids_repeat_across_phases", "phase_without_statements", "public_infer_kinds_entry",
-               "long_chain_program"],
+               "long_chain_program", "finder_object_used_before"],
  },
 }
 
@@ -148,8 +148,15 @@ def run_c15(ctx):
         default_index_vars = tape.chance(0.4, "default_index_vars")
     if default_index_vars:
         ctx.count("probe:user_types_name_their_own_index_variables")
+    with tape.span("f_options"):
+        f_options = {"instrumented": tape.chance(0.35, "instrumented")}
+        f_options["hooks"] = tape.chance(0.5, "hooks") if f_options["instrumented"] else tape.chance(0.15, "hooks")
+    if f_options["instrumented"]:
+        ctx.count("probe:instrumented_module_text")
+    if f_options["hooks"]:
+        ctx.count("probe:state_update_hooks")
     base = {"type": "c15", "py_values": py_values, "f_values": f_values, "want_interp": want_interp,
-            "id_salt": id_salt, "py_kw": py_kw, "default_index_vars": default_index_vars}
+            "id_salt": id_salt, "py_kw": py_kw, "default_index_vars": default_index_vars, "f_options": f_options}
     # a few more small multi-phase programs with guarded switches, Python text only (cheap)
     with tape.span("extra_py"):
         extra = []
@@ -298,9 +305,14 @@ def run_c14(ctx):
                 raise Violation("merge-noncommutative", "unify(%s, %s) -> %s but unify(%s, %s) -> %s"
                                 % (an, bn, ab, bn, an, ba), site=",".join(sorted(set([an.split("_")[0], bn.split("_")[0]]))))
             ctx.count("probe:pair_defined_both" if ab[0] == "ok" else "probe:pair_undefined_both")
-            aa = try_unify(a, a)
-            if aa[0] == "ok" and aa[1] != kr(a):
-                raise Violation("merge-nonidempotent", "unify(%s, %s) -> %s" % (an, an, aa), site=an)
+            # idempotent, also for an equal kind that is another object (made separately, as kinds are)
+            for twin in (a, make_kind(an)):
+                aa = try_unify(a, twin)
+                if an != "Boolean" and aa != ("ok", kr(a)):
+                    raise Violation("merge-nonidempotent", "unify(%s, %s) -> %s%s" % (
+                        an, an, aa, "" if twin is a else " for two equal kinds that are distinct objects"), site=an)
+                if an == "Boolean" and aa[0] == "ok" and aa[1] != kr(a):
+                    raise Violation("merge-nonidempotent", "unify(%s, %s) -> %s" % (an, an, aa), site=an)
             for x in (a,):
                 n1, n2 = try_unify(None, x), try_unify(x, None)
                 if n1 != ("ok", kr(x)) or n2 != ("ok", kr(x)):
@@ -424,10 +436,14 @@ def run_c14(ctx):
             if any(as_iter):
                 ctx.count("fault:phases_as_one_shot_iterables", sum(as_iter))
             via = [False] + [tape.chance(0.4, "via_infer_kinds") for _ in perms[1:]]
+            used_before = [False] + [tape.chance(0.3, "finder_used_before") for _ in perms[1:]]
+            if any(used_before):
+                ctx.count("probe:finder_object_used_before")
+                ctx.count("fault:finder_history", sum(used_before))
             if any(v and not ai for v, ai in zip(via, as_iter)):
                 ctx.count("probe:public_infer_kinds_entry")
-            requests = [(h, [dict(base, perm_seed=p, as_iter=ai, via_infer_kinds=v)
-                             for p, ai, v in zip(perms, as_iter, via)]) for h in hs]
+            requests = [(h, [dict(base, perm_seed=p, as_iter=ai, via_infer_kinds=v, finder_used_before=ub)
+                             for p, ai, v, ub in zip(perms, as_iter, via, used_before)]) for h in hs]
             answers = run_workers(requests)
             can = answers[0][0]
             ctx.count("probe:program_level")
